@@ -158,7 +158,7 @@ func (ex *Exec) feasible(c *smt.Term) bool {
 	if c.IsFalse() {
 		return false
 	}
-	as := ex.constraints(c)
+	as := append(smt.Slice(ex.constraints(), c), c)
 	key := "F" + pcKey(as, nil)
 	if r, ok := ex.P.cacheGet(key); ok {
 		return r != smt.Unsat
